@@ -375,6 +375,23 @@ def arrange(rng, draft, s0, mode=None):
                     doc = inner.schema
                     info["refs"] += inner.info["refs"]
                     info["inner_store_refs"] = info.get("inner_store_refs", 0) + inner.info["refs"]
+            # a fetched document may itself change the base URI (a relative id on the evaluation path) and refer,
+            # below it, to another document relative to that new base
+            if isinstance(doc, dict) and idkw not in doc and rng.random() < 0.3 and draft != 3 or \
+                    (isinstance(doc, dict) and idkw not in doc and rng.random() < 0.3 and "required" not in doc):
+                inner_pos = [q for q in extractable_positions(draft, doc) if not _inside_ref_object(doc, q)]
+                if inner_pos:
+                    q = rng.choice(inner_pos)
+                    rid = rng.choice(["sub/", "x/y.json", "#frag", "../up/", "deeper/more/"])
+                    new_base = U.resolve(url, rid)
+                    iname = "inner%d.json" % len(store)
+                    inner_url = U.resolve(new_base, iname)
+                    if U.norm_key(inner_url) not in {U.norm_key(k_) for k_ in store} and inner_url != url:
+                        store[inner_url] = get_at(doc, q)
+                        doc = set_at(doc, list(q), {"$ref": iname})
+                        doc = dict({idkw: rid}, **doc)
+                        info["refs"] += 1
+                        info["relative_id_in_store_doc"] = info.get("relative_id_in_store_doc", 0) + 1
             # the caller may register the document under a spelling with an empty fragment
             # (what {doc[id]: doc} gives when the id ends in '#'): the store normalises its keys
             store[url + "#" if rng.random() < 0.3 else url] = doc
